@@ -384,4 +384,81 @@ class Grid(Component):
         ctx.label("grid:" + e)
 
 
-COMPONENTS = [Variants(), Grid()]
+class E1Perm(Component):
+    """Row-order / chunking invariance on the E1 size-sweep tables: many different set sizes
+    in one call, all instance pairs exactly at / next to the threshold."""
+    name = "e1perm"
+    kind = "enum"
+    exhaustive = True
+    rule = "every E1 batch (sizes <= N) joined in original order, reversed orders and chunked"
+
+    def bounds(self, tier):
+        return {"N": 14 if tier == "quick" else 28, "measures": ["JACCARD", "COSINE", "DICE"],
+                "variants": ["reverse right", "reverse left", "n_jobs=3",
+                             "PositionFilter.filter_tables qualifying pairs"]}
+
+    def shards(self, tier):
+        return 16
+
+    def cases(self, tier):
+        from .. import enumgen
+        return enumgen.e1_cases(self.bounds(tier)["N"], chunk=60)
+
+    def check(self, case, ctx):
+        from .. import enumgen
+        from ..env import JOINS
+        triples = [tuple(t) for t in case["triples"]]
+        L, R = enumgen.e1_tables(triples)
+        m, t = case["measure"], case["threshold"]
+
+        def join(a, b, nj=1):
+            tok = mk_tok(enumgen.WS)
+            with calls.backend(nj):
+                df = ctx.lib(JOINS[m], a, b, "id", "id", "v", "v", tok, t, ">=", True, False,
+                             None, None, "l_", "r_", True, nj, False)
+            if df is None:
+                return None
+            return collections.Counter(zip(df["l_id"].tolist(), df["r_id"].tolist(),
+                                           df["_sim_score"].tolist()))
+
+        base = join(L, R)
+        if base is None:
+            return
+        variants = [("right table reversed", L, R.iloc[::-1], 1),
+                    ("left table reversed", L.iloc[::-1], R, 1),
+                    ("both reversed, shuffled index",
+                     L.iloc[::-1].set_index(pd.Index(["x%d" % i for i in range(len(L))])),
+                     R.iloc[::-1], 1),
+                    ("n_jobs=3", L, R, 3)]
+        for what, a, b, nj in variants:
+            r = join(a, b, nj)
+            if r is not None and r != base:
+                ctx.violation("entry=%s_join,kind=rows-vary" % m.lower(),
+                              "%s_join threshold=%r on E1 sizes %r...: result with %s differs: "
+                              "only there %r, only in the original order %r"
+                              % (m.lower(), t, triples[:3], what, list((r - base).items())[:3],
+                                 list((base - r).items())[:3]))
+        # PositionFilter.filter_tables: qualifying pairs must not depend on order / chunking
+        musts = set((i, i) for i, (n, mm, o) in enumerate(triples)
+                    if oracle.classify(m, n, mm, o, t, ">=") == "must")
+        for what, a, b, nj in variants:
+            f = ssj.PositionFilter(mk_tok(enumgen.WS), m, t)
+            with calls.backend(nj):
+                df = ctx.lib(f.filter_tables, a, b, "id", "id", "v", "v", n_jobs=nj,
+                             show_progress=False)
+            if df is None:
+                continue
+            got = set(zip(df["l_id"].tolist(), df["r_id"].tolist()))
+            if not musts <= got:
+                ctx.violation("entry=PositionFilter.filter_tables,kind=qualifying-pair-lost-by-"
+                              "presentation",
+                              "PositionFilter(%s, %r).filter_tables with %s loses qualifying "
+                              "pairs %r" % (m, t, what, sorted(musts - got)[:3]))
+        ctx.nontrivial(len(base) > 0)
+        ctx.label("e1perm:" + m)
+
+    def shrink_case(self, case, ctx):
+        return case
+
+
+COMPONENTS = [Variants(), Grid(), E1Perm()]
